@@ -48,7 +48,7 @@ B_SETS = {
     "moc-lay+matched": [L.P("M2"), L.P("X2", side="BACK", price=3.0)],
     "low-price": [L.P("X2", sel=3, side="BACK", price=5.0), L.P("XL", sel=1, side="BACK", price=2.0)],
 }
-FACTORS = (None, 0, 2.49, 2.5, 20.0, 99.0)
+FACTORS = (None, 0, 2.49, 2.5, 20.0, 66.67, 80.0, 99.0)  # 66.67 / 80: a fill at 3.0 / 5.0 is reduced to exactly 1.00 -> floored to 1.01
 MTYPES = ("WIN", "PLACE", "OTHER_PLACE", "EACH_WAY")
 
 
@@ -95,6 +95,18 @@ class Hooks:
 
 
 def build(a_state, b_set, factor, timing, mtype, second, two_markets):
+    if timing == "inflight-double":
+        # the order on runner 1 is requested, its runner is withdrawn 50 ms later and runner 3 another 50 ms later -
+        # both before the placement could take effect (latency 120 ms): every order in the market still gets both
+        return [
+            [50, ["Q"], [["@", 1, a] for a in B_SETS[b_set]]],
+            [50, ["RM", 1, factor], [L.P("PBn"), L.P("PBn", sel=3, price=5.5)]],  # the second one rides on runner 3
+            [50, ["RM", 3, second], []],
+            L.tick(200),
+            L.tick(200, ["MD"]),
+            L.tick(200),
+            L.tick(200, ["CL", {2: "WINNER"}]),
+        ]
     dt, prefix = A_STATES[a_state]
     prefix = [list(t) for t in prefix]
     hist = []
@@ -317,7 +329,7 @@ def run(tier):
                     for mt in mts:
                         jobs.append((a, b, f, timing, mt, None, None))
     # second removal in the same market; same removal in a second market (sequential / event-grouped)
-    for a in ("resting", "partly", "partcancel", "MOC", "none"):
+    for a in ("resting", "partly", "partcancel", "MOC", "none", "pending"):
         for b in ("matched-lay", "matched-back", "moc-lay", "low-price"):
             for f in (2.5, 20.0) + ((0, 99.0) if thorough else ()):
                 for mt in ("WIN", "PLACE"):
@@ -325,6 +337,11 @@ def run(tier):
                     jobs.append((a, b, f, "plain", mt, f, None))
                     for two in ("seq", "event", "event-long"):
                         jobs.append((a, b, f, "plain", mt, None, two))
+    for b in ("matched-lay", "matched-back", "moc-lay", "low-price", "moc-lay+matched"):
+        for f in (2.5, 20.0, None):
+            for sec in (10.0, 2.0):
+                for mt in ("WIN", "PLACE"):
+                    jobs.append(("pending", b, f, "inflight-double", mt, sec, None))
     for b in ("matched-lay", "matched-back", "passive", "moc-lay", "loc-lay", "moc-lay+matched"):
         for f in FACTORS:
             for mt in ("WIN", "PLACE") + (("EACH_WAY",) if thorough else ()):
